@@ -72,6 +72,12 @@ type Prop[C any] struct {
 	// ChildTimeout is the real-time limit of one child (default 60 s); expiry is reported as a
 	// failure with msg prefix "child timeout".
 	ChildTimeout time.Duration
+	// HangConfirm: a child timeout of a bubble case is only a failure if the same scenario,
+	// rewritten by HangConfirmCase, also fails under this (wall clock) property: a goroutine
+	// waiting on a sync.Mutex is not "durably blocked" for testing/synctest, so a library that
+	// waits on a mutex for something that needs virtual time to pass stops the bubble's clock.
+	HangConfirm     *Prop[C]
+	HangConfirmCase func(C) C
 	// Known maps a failing case to the slug of a listed known finding ("" = not known).
 	Known func(C, Verdict) string
 	// Checks is the default number of cases when -rapid.checks is left at rapid's default.
@@ -81,9 +87,9 @@ type Prop[C any] struct {
 
 type stats struct {
 	mu          sync.Mutex
-	Evaluations int            `json:"evaluations"`
-	Infeasible  int            `json:"infeasible"`
-	Hashes      []string       `json:"nontrivial_hashes"`
+	Evaluations int      `json:"evaluations"`
+	Infeasible  int      `json:"infeasible"`
+	Hashes      []string `json:"nontrivial_hashes"`
 	hashSet     map[string]struct{}
 	Classes     map[string]int `json:"classes"`
 	Samples     []any          `json:"samples"`
@@ -260,7 +266,12 @@ func (p *Prop[C]) execLocal(t *testing.T, c C) (v Verdict) {
 			if r := recover(); r != nil {
 				msg := fmt.Sprint(r)
 				if strings.Contains(msg, "blocked goroutines remain") {
-					leak = msg; if os.Getenv("VERIF_DEBUG_LEAK") != "" { buf := make([]byte, 1<<16); buf = buf[:runtime.Stack(buf, true)]; fmt.Fprintf(os.Stderr, "LEAK: %s\n%s\n", msg, buf) }
+					leak = msg
+					if os.Getenv("VERIF_DEBUG_LEAK") != "" {
+						buf := make([]byte, 1<<16)
+						buf = buf[:runtime.Stack(buf, true)]
+						fmt.Fprintf(os.Stderr, "LEAK: %s\n%s\n", msg, buf)
+					}
 
 					return
 				}
@@ -369,6 +380,15 @@ func (p *Prop[C]) execChild(c C) Verdict {
 	case <-time.After(to):
 		_ = cmd.Process.Kill()
 		<-done
+
+		if p.HangConfirm != nil {
+			v2 := p.HangConfirm.execChild(p.HangConfirmCase(c))
+			if v2.OK {
+				return Verdict{OK: true, Infeasible: true, Classes: []string{"bubble-hang-not-confirmed-on-the-wall-clock"}}
+			}
+
+			return Fail("child timeout after %v real time (hang in the bubble); the same scenario on the wall clock: %s", to, v2.Msg)
+		}
 
 		return Fail("child timeout after %v real time (hang): stderr tail:\n%s", to,
 			tail(stderr.String(), 1500))
